@@ -7,7 +7,7 @@ EXTENDS Geometry, Json, IOUtils
 CONSTANTS Sizes
 VARIABLE c
 BS == {1024, 2048, 4096}
-CfgSpace == [bs : BS, blocks : Sizes, iratio : {4096, 16384, 65536}, isz : {128, 256}, bpg : {0, 256, 1024},
+CfgSpace == [bs : BS, blocks : Sizes, iratio : {4096, 16384, 65536, 4194304}, isz : {128, 256}, bpg : {0, 256, 1024},
              resize : BOOLEAN, sparse : BOOLEAN, ss2 : BOOLEAN, metabg : BOOLEAN, is64 : BOOLEAN, ninodes : {0},
              nbsb : NumBackupSb, rszfac : {0, 3, 40}]
 Valid(x) == /\ (x.bpg = 0 \/ x.bpg <= x.bs * 8)
